@@ -117,6 +117,26 @@ def shared_good(names):
     return {name: {} for name in names}, dict.fromkeys(names, 0), [None] * len(names)
 
 
+class _Node:
+    def __init__(self, children):
+        self.children = children
+
+    def count(self):
+        return len(self.children)
+
+
+def narrow_bad(node):
+    if isinstance(node, _Node):
+        return node.child
+    return None
+
+
+def narrow_good(node):
+    if isinstance(node, _Node):
+        return node.children, node.count()
+    return node.child
+
+
 def mutate_bad(statement):
     loops = statement.loops
     loops.reverse()
@@ -201,6 +221,102 @@ def _shared(f):
                 if isinstance(side, (ast.List, ast.Tuple)) and side.elts \
                         and any(_mutable_value(e) for e in side.elts):
                     out.append((x, f"{norm(x, 50)}: every slot holds the same object"))
+    return out
+
+
+def _class_attrs(P, c):
+    """Attribute names instances of c have, or None if that cannot be known
+    (a base outside the analysed sources, __getattr__, record-style fields)."""
+    names = set()
+    for k in P.mro(c):
+        if k.node is None:
+            return None
+        for b in k.node.bases:
+            d = dotted(b)
+            if d is None:
+                return None
+        for st in k.node.body:
+            if isinstance(st, (ast.Assign, ast.AnnAssign)):
+                tg = st.targets if isinstance(st, ast.Assign) else [st.target]
+                names |= {t.id for t in tg if isinstance(t, ast.Name)}
+            if isinstance(st, (ast.FunctionDef, ast.AsyncFunctionDef)):
+                names.add(st.name)
+                if st.name in ("__getattr__", "__getattribute__"):
+                    return None
+                for x in ast.walk(st):
+                    if isinstance(x, ast.Attribute) and isinstance(x.value, ast.Name) \
+                            and x.value.id == "self" and isinstance(x.ctx, ast.Store):
+                        names.add(x.attr)
+                    if isinstance(x, ast.Call) and dotted(x.func) == "setattr":
+                        return None
+    # every base must have been resolved to a class of the analysed sources
+    resolved = {k.name for k in P.mro(c)}
+    for k in P.mro(c):
+        for b in k.node.bases:
+            bn = (dotted(b) or "").split(".")[-1]
+            if bn in resolved | {"object"}:
+                continue
+            lib = None
+            if bn in ("Expression", "ExpressionNode"):
+                try:
+                    lib = P.cls("pymbolic.primitives.ExpressionNode")
+                except Exception:
+                    lib = None
+            if lib is None or lib is c:
+                return None
+            extra = _class_attrs(P, lib)
+            if extra is None:
+                # the library base is read as it is: take what it defines, nothing dynamic
+                extra = set()
+                for st in lib.node.body:
+                    if isinstance(st, (ast.FunctionDef, ast.AsyncFunctionDef)):
+                        if st.name in ("__getattr__", "__getattribute__"):
+                            return None
+                        extra.add(st.name)
+                    if isinstance(st, (ast.Assign, ast.AnnAssign)):
+                        tg = st.targets if isinstance(st, ast.Assign) else [st.target]
+                        extra |= {t.id for t in tg if isinstance(t, ast.Name)}
+            names |= extra
+    return names | {"__class__", "__dict__", "__doc__", "__module__"}
+
+
+def _narrow(f, P=None):
+    """Attribute read on a value the enclosing test narrows to a class that has
+    no such attribute (AttributeError as soon as the branch is taken)."""
+    if P is None:
+        return []
+    from ..engine.srcmodel import Class
+    out = []
+    for t in ast.walk(f.node):
+        if not isinstance(t, ast.If):
+            continue
+        test = t.test
+        if not (isinstance(test, ast.Call) and dotted(test.func) == "isinstance" and len(test.args) == 2
+                and isinstance(test.args[0], ast.Name) and isinstance(test.args[1], (ast.Name, ast.Attribute))):
+            continue
+        v = test.args[0].id
+        try:
+            c = P.resolve_expr(f, test.args[1])
+        except Exception:
+            c = None
+        if not isinstance(c, Class) or c.module.trusted:
+            continue
+        attrs = _class_attrs(P, c)
+        if attrs is None:
+            continue
+        for st in t.body:
+            rebound = False
+            for x in ast.walk(st):
+                if isinstance(x, ast.Name) and x.id == v and isinstance(x.ctx, ast.Store):
+                    rebound = True
+            for x in ast.walk(st):
+                if isinstance(x, ast.Attribute) and isinstance(x.value, ast.Name) and x.value.id == v \
+                        and isinstance(x.ctx, ast.Load) and x.attr not in attrs \
+                        and not x.attr.startswith("__"):
+                    out.append((x, f"{norm(x)}: '{v}' is a {c.name} here, which has no attribute "
+                                   f"'{x.attr}'"))
+            if rebound:
+                break
     return out
 
 
@@ -358,6 +474,7 @@ LINTS = [
     ("setor", _setor, True),
     ("strip", _strip, True),
     ("shared", _shared, True),
+    ("narrow", _narrow, True),
     ("mutate", _mutate, False),     # only for modules that are handed a description
 ]
 
@@ -380,7 +497,7 @@ def lints(run, P, prop, extra_files=()):
              "a loop that is only computed in another loop; parallel sequences ordered "
              "alike; no loop variable used in a later loop; no identity comparison of values; data "
              "split by separator; union, not 'or', of variable sets; no word handed to "
-             "strip(); no one mutable object as the value of many keys; no "
+             "strip(); no attribute that the class of a narrowed value lacks; no one mutable object as the value of many keys; no "
              "argument passed under another parameter's name; no in-place change of a "
              "description handed in", minimum=3)
     files = sorted(set(anchor_files(prop)) | set(extra_files))
@@ -395,7 +512,7 @@ def lints(run, P, prop, extra_files=()):
             for name, fn, everywhere in LINTS:
                 if not everywhere and not m.name.startswith(_MUTATE_MODULES):
                     continue
-                res = fn(f, P) if name == "argswap" else fn(f)
+                res = fn(f, P) if name in ("argswap", "narrow") else fn(f)
                 for node, what in res:
                     hits += 1
                     run.ob(rule, f, node, False, construct=f"[{name}] {what}",
@@ -410,7 +527,7 @@ def lints(run, P, prop, extra_files=()):
     m2 = P2.module("dagrt._verif_lint_control")
     missed, noisy = [], []
     for name, fn, _ in LINTS:
-        if name == "argswap":
+        if name in ("argswap", "narrow"):
             bad = fn(m2.functions[f"{name}_bad"], P2)
             good = fn(m2.functions[f"{name}_good"], P2)
         else:
